@@ -70,7 +70,7 @@ mod verif_kani {
         core::mem::forget(r);
     }
 
-    //@harness props=C13,C12 kind=bounded fns=StringExpression::new bound="literals [[ b1 b2 ]] with a symbolic 2-byte body over {[,],=,a,\\n} that does not contain or complete the closer" budget=240
+    //@harness props=C13,C12 kind=bounded fns=StringExpression::new bound="literals [[ b1 b2 ]] with a symbolic 2-byte body over {[,],=,a,\\n} that does not contain or complete the closer" budget=400
     //@ desc="StringExpression::new on a level-0 long-bracket literal: the value is the body minus one leading newline; never panics"
     #[kani::proof]
     #[kani::unwind(8)]
@@ -78,7 +78,7 @@ mod verif_kani {
         check_shape::<2, 6>(b"[[", b"]]");
     }
 
-    //@harness props=C13,C12 kind=bounded fns=StringExpression::new bound="literals [=[ b1 b2 ]=] with a symbolic 2-byte body over {[,],=,a,\\n} that does not contain or complete the closer" budget=240
+    //@harness props=C13,C12 kind=bounded fns=StringExpression::new bound="literals [=[ b1 b2 ]=] with a symbolic 2-byte body over {[,],=,a,\\n} that does not contain or complete the closer" budget=400
     //@ desc="StringExpression::new on a level-1 long-bracket literal: the value is the body minus one leading newline; never panics"
     #[kani::proof]
     #[kani::unwind(10)]
